@@ -14,8 +14,9 @@ static Verdict run(const Case &c) {
     size_t cap = (h.mtu - 34) / 14;
     int checked = 0, maxn = 0;
     bool distinct2 = false, over = false;
-    for (size_t i = 0; i < c.ops.size() && v.ok; i++) {
-        const Op &op = c.ops[i];
+    const std::vector<Op> ops = expand_repeats(c.ops);
+    for (size_t i = 0; i < ops.size() && v.ok; i++) {
+        const Op &op = ops[i];
         if (op.kind == K_ADVANCE) { vp_set_now_ms(vp_now_ms() + (uint64_t)op.arg(0)); continue; }
         if (op.kind == K_OTHERIF) { oif.step(w, h, op); continue; }
         Built b = build_frame(h, op, sh);
@@ -139,7 +140,7 @@ int main(int argc, char **argv) {
     // random: Emits inside histories
     if (ok) {
         HistWeights w;
-        w.emit = 10; w.discover = 5; w.max_emit = 12; w.probe = 1; w.hello = 1; w.shell = 1; w.odd_tos = false; w.otherif = 1;
+        w.emit = 10; w.discover = 5; w.max_emit = 12; w.probe = 1; w.hello = 1; w.shell = 1; w.odd_tos = false; w.otherif = 1; w.repeat = 1;
         ok = run_cases(a, ev, "c06-histories", a.n(20000, 200000), 100, hg::hist_case(w, 2, 25), run);
     }
     // over-declared family
